@@ -100,6 +100,7 @@ impl Check for C06 {
         struct Cl { session: bool, live: bool, names: Vec<(NameUse, String)>, pool: Vec<NameUse>, steps: u64, pending_use: bool, lang: String }
         let mut cls: Vec<Cl> = (0..k).map(|_| Cl { session: r.chance(2, 3), live: false, names: vec![], pool: g.name_pool(&mut r, 4), steps: 3 + r.below(8), pending_use: false, lang: if r.chance(1, 6) { "tr".into() } else { "en".into() } }).collect();
         let thorough_pairs = tier == "thorough";
+        let sep_changes = r.chance(1, 3);
         let mut budget = 200;
         while cls.iter().any(|c| c.steps > 0) && budget > 0 {
             budget -= 1;
@@ -108,6 +109,15 @@ impl Check for C06 {
             // bias: right after a binding, the administrator is likely to move a rate the binding depends on
             let pending: Vec<String> = cls.iter().filter(|c| c.pending_use).flat_map(|c| c.names.iter().map(|(_, code)| code.clone())).collect();
             let admin_now = faults && (if !pending.is_empty() { r.chance(1, 2) } else { r.chance(1, 5) });
+            if faults && sep_changes && r.chance(1, 12) {
+                // the separator convention changes (both setters, either order): literals are written in the
+                // convention that is current when they are evaluated, the amounts they denote stay the same
+                let (d, th) = *r.pick(&[(",", "."), (".", ","), (".", ""), (",", "")]);
+                let a = Event { actor: ADMIN, op: Op::Admin(AdminOp::SetDecimalSep { s: d.into() }), clock: clock.clone() };
+                let b = Event { actor: ADMIN, op: Op::Admin(AdminOp::SetThousandSep { s: th.into() }), clock };
+                if r.chance(1, 2) { events.push(a); events.push(b); } else { events.push(b); events.push(a); }
+                continue;
+            }
             if admin_now {
                 events.push(Event { actor: ADMIN, op: Op::Admin(gen_update(&mut r, &g, &pending)), clock });
                 for c in cls.iter_mut() { c.pending_use = false; }
